@@ -125,6 +125,36 @@ def sensitivity(args):
     return 1 if missed else 0
 
 
+def regressions(args):
+    """Every repaired defect must be reported again when its fix is reverted."""
+    known = json.load(open(os.path.join(VERIF, 'KNOWN_FINDINGS.json')))
+    res = {}
+    for k in known:
+        if k.get('status') != 'fixed' or (args and k['id'] not in args and k['property'] not in args):
+            continue
+        d = _scratch_copy('revert-' + k['id'])
+        try:
+            diff = subprocess.run(['git', '-C', '/repo', 'diff', k['commit'] + '^', k['commit']], capture_output=True, text=True).stdout
+            r0 = subprocess.run(['patch', '-R', '-p1', '-d', d, '--no-backup-if-mismatch'], input=diff, capture_output=True, text=True)
+            if r0.returncode != 0:
+                res[k['id']] = 'revert-failed'
+                print('%-34s revert failed: %s' % (k['id'], (r0.stdout + r0.stderr)[-200:]))
+                continue
+            env = dict(os.environ)
+            env.update({'VERIF_REPO': d, 'VERIF_REPLAY_DIR': os.path.join(d, '_replays'), 'VERIF_EVIDENCE_DIR': os.path.join(d, '_evidence'), 'VERIF_BUDGET_S': '45'})
+            t0 = time.time()
+            r = subprocess.run([os.path.join(VERIF, 'vf'), 'check', k['property'], '--tier', 'quick'], capture_output=True, text=True, env=env, cwd=VERIF, timeout=1800)
+            lines = [l for l in r.stdout.splitlines() if l.startswith('violated clause')]
+            ok = r.returncode == 1 and any(k['clause'].split('.')[0] in l for l in lines)
+            res[k['id']] = 'caught' if ok else ('missed' if r.returncode == 0 else 'rc=%d' % r.returncode)
+            print('%-34s %-4s %-8s %5.1fs %s' % (k['id'], k['property'], res[k['id']], time.time() - t0, '; '.join(l[16:110] for l in lines[:2])), flush=True)
+        finally:
+            shutil.rmtree(d, ignore_errors=True)
+    bad = [i for i, v in res.items() if v != 'caught']
+    print('regressions: %d/%d reverted fixes reported again; not: %s' % (len(res) - len(bad), len(res), bad))
+    return 1 if bad else 0
+
+
 def main(args):
     if not args:
         print('selftest determinism|sensitivity|oracles')
@@ -133,6 +163,8 @@ def main(args):
         return determinism(args[1:])
     if args[0] == 'sensitivity':
         return sensitivity(args[1:])
+    if args[0] == 'regressions':
+        return regressions(args[1:])
     if args[0] == 'oracles':
         from selftest import oracles
         return oracles.main(args[1:])
